@@ -62,7 +62,9 @@ def run(ck: Check) -> None:
         budget = [rng.choice([5, 20, 60, 200 if ck.thorough else 60])]
         values.append(gen.rand_json(rng, depth=rng.randint(0, depth), budget=budget, wf=(i % 10 != 0), stats=stats))
     # corpus: published sample + shipped fixtures
-    corpus = [{"k1": "v1", "k2": [1, 2, {"a": None}], "é": "\U0001f600\ud800", "f": [1e22, -0.0, float("nan")]}]
+    corpus = [{"k1": "v1", "k2": [1, 2, {"a": None}], "é": "\U0001f600\ud800", "f": [1e22, -0.0, float("nan")]},
+              {"signatures": {"k": "ab" * 64}, "signed": {"signatures": {"x": "cd" * 64, "y": {"signature": "ef" * 64}}, "type": "root", "delegations": {}}},
+              [{"signatures": {"a": "01" * 64}}, {"signed": 1}, {"__class__": "x", "__type__": "y", "$ref": "#", "py/object": "z"}]]
     repo = os.environ.get("CCT_REPO", "/repo")
     for fn in ["tests/testdata/1.root.json", "tests/testdata/2.root.json", "tests/testdata/3.root.json",
                "tests/testdata/key_mgr.json", "tests/testdata/repodata_short_signed_sample.json"]:
